@@ -530,11 +530,17 @@ class Gen:
 # evidence / verdict
 # --------------------------------------------------------------------------
 def load_known_findings(prop):
-    p = os.path.join(VERIF, 'known_findings.json')
-    if not os.path.exists(p):
-        return []
-    data = json.load(open(p))
-    return [f for f in data.get('findings', []) if f.get('property') == prop and f.get('status', 'open') == 'open']
+    out = []
+    paths = [os.path.join(VERIF, 'known_findings.json')]
+    d = os.path.join(VERIF, 'known_findings.d')
+    if os.path.isdir(d):
+        paths += [os.path.join(d, x) for x in sorted(os.listdir(d)) if x.endswith('.json')]
+    for p in paths:
+        if not os.path.exists(p):
+            continue
+        data = json.load(open(p))
+        out += [f for f in data.get('findings', []) if f.get('property') == prop and f.get('status', 'open') == 'open']
+    return out
 
 
 def write_replay(prop, payload):
